@@ -694,6 +694,19 @@ class Engine:
             return z3.ToReal(z3.ToInt(x))
         if name in ('move', 'forward'):
             return self.ev(args[0], st)
+        if name in ('max', 'min') and len(args) == 2:
+            a, b = self.ev(args[0], st), self.ev(args[1], st)
+            return z3.If(a < b, b, a) if name == 'max' else z3.If(b < a, b, a)
+        if name in ('abs', 'fabs'):
+            a = self.ev(args[0], st)
+            return z3.If(a < 0, -a, a)
+        if name == 'trunc':
+            x = self.ev(args[0], st)
+            return z3.ToReal(z3.If(x >= 0, z3.ToInt(x), -z3.ToInt(-x)))
+        if name in ('round', 'lround', 'llround'):
+            x = self.ev(args[0], st)     # halfway cases away from zero
+            r = z3.If(x >= 0, z3.ToInt(x + z3.RealVal('1/2')), -z3.ToInt(-x + z3.RealVal('1/2')))
+            return z3.ToReal(r) if name == 'round' else r
         if name == 'find_if':
             return self.find_if(args, st, n)
         raise Unsupported('vcgen: call to external %s' % name)
@@ -752,7 +765,7 @@ class Engine:
         return ret
 
     def ret_type(self, fn):
-        qt = fn['type'].get('desugaredQualType', fn['type']['qualType'])
+        qt = fn['type'].get('desugaredQualType', fn['type']['qualType']).replace('(anonymous namespace)', 'ANON_NS_').replace('(anonymous)', 'ANON_NS_')
         depth = 0
         for i, ch in enumerate(qt):
             if ch == '<':
